@@ -71,7 +71,7 @@ CONC = ["u8", "String", "bool", "u32"]
 def ty_src(P, ty):
     k = ty["k"]
     if k == "param":
-        return pname(P, ty["i"])
+        return ("r#" if P.get("raw_use") and P["params"][ty["i"] - 1]["k"] != "lifetime" else "") + pname(P, ty["i"])
     if k == "conc":
         return "i8" if P.get("conc") == "int" else CONC[ty["n"] % len(CONC)]
     if k == "abs":
